@@ -183,6 +183,29 @@ class Canon:
                     shadow.add(a.arg)
         if shadow:
             env = {k: v for k, v in env.items() if k.split('.')[0] not in shadow}
+        # a name bound by a comprehension around ``node`` denotes each element of
+        # what the comprehension runs over - as the target of a for loop does
+        bound = {}
+        cur, below = getattr(node, '_parent', None), node
+        chain = []
+        while cur is not None and cur is not self.fn:
+            if isinstance(cur, (ast.ListComp, ast.SetComp, ast.GeneratorExp, ast.DictComp)):
+                chain.append((cur, below))
+            below, cur = cur, getattr(cur, '_parent', None)
+        for comp, inner in reversed(chain):
+            for g in comp.generators:
+                if any(node is x for x in ast.walk(g.iter)):
+                    break       # the node sits in this generator's iterable: not bound yet
+                it = substitute(g.iter, {**env, **bound})
+                if isinstance(g.target, ast.Name):
+                    bound[g.target.id] = _each(it)
+                elif isinstance(g.target, (ast.Tuple, ast.List)):
+                    for i, elt in enumerate(g.target.elts):
+                        if isinstance(elt, ast.Name):
+                            bound[elt.id] = _each(it, i)
+        if bound:
+            env = {k: v for k, v in env.items() if k.split('.')[0] not in bound}
+            env.update(bound)
         return substitute(node, env)
 
     def key(self, node, define=False):
